@@ -55,7 +55,7 @@ def replay(ctx, name, shape, m, model, pcv, tcv, want):
     return ctx.mismatch(name, f'abstract counterexample `{expr}` but the native evaluator answers {got} as the reference does')
 
 
-def wildcard(ctx, N=None, Mx=None):
+def wildcard(ctx, N=None, Mx=None, only_n=None):
     P = ctx.prog('core')
     f = P.method('ast/pattern.rs', 'wildcard_match', nargs=2)
     ctx.use(f)
@@ -63,7 +63,7 @@ def wildcard(ctx, N=None, Mx=None):
     N = N or (5 if thorough else 4)
     Mx = Mx or (5 if thorough else 4)
     total_paths = 0
-    for n in range(0, N + 1):
+    for n in ([only_n] if only_n is not None else range(0, N + 1)):
         for shape in itertools.product('WC', repeat=n):
             # adjacent wildcards behave like one; keep them (the code must cope) but skip shapes that are all literals longer than the text bound
             for m in range(0, Mx + 1):
@@ -110,10 +110,25 @@ def wildcard(ctx, N=None, Mx=None):
                            sample={'paths': len(rets), 'reference': str(z3.simplify(want))[:160]} if (n, m) == (3, 2) and shape == ('W', 'C', 'W') else None,
                            on_sat=lambda mm, nm=nm, shape=shape, m=m, pcv=pcv, tcv=tcv, want=want: replay(ctx, nm, shape, m, mm, pcv, tcv, want))
                 ctx.decide(f'{nm}/paths-cover', list(ex.invariants) + [z3.Not(z3.Or([z3.And(o.pc) if o.pc else z3.BoolVal(True) for o in rets]))], ex=ex)
+    if only_n is not None:
+        ctx.decide(f'wildcard_match[{only_n} elements]/witness', [z3.BoolVal(total_paths > 0)], expect='sat')
+        return
     ctx.bounds.append(f'like: every pattern shape of <= {N} elements (wildcard / literal with a symbolic character, {sum(2 ** k for k in range(N + 1))} shapes) x every text of <= {Mx} symbolic characters; '
                       f'the backtracking loop is unrolled by path ({total_paths} paths in total); longer patterns / texts are outside the claim')
     ctx.decide('wildcard_match/witness', [z3.BoolVal(total_paths > 0)], expect='sat')
 
 
+def bounds(ctx):
+    thorough = ctx.tier == 'thorough'
+    return (7 if thorough else 6), (5 if thorough else 4)
+
+
 def families(ctx):
-    return [('like: wildcard_match vs glob semantics', lambda: wildcard(ctx))]
+    N, Mx = bounds(ctx)
+    return [(f'like: wildcard_match vs glob semantics, patterns of {n} elements', lambda n=n: wildcard(ctx, N, Mx, only_n=n)) for n in range(N + 1)]
+
+
+def describe(ctx):
+    N, Mx = bounds(ctx)
+    return (f'like: every pattern shape of <= {N} elements (wildcard / literal with a symbolic character, {sum(2 ** k for k in range(N + 1))} shapes) x every text of <= {Mx} symbolic characters; '
+            'the backtracking loop is unrolled by path; longer patterns / texts are outside the claim')
